@@ -575,7 +575,8 @@ pub fn run_parent<P: Property>(args: &ParentArgs, out: &mut dyn FnMut(String)) -
         "wall_s": (wall * 1000.0).round() / 1000.0,
         "violations": n_viol,
     });
-    let epath = format!("{}/evidence/{}.json", args.root, P::ID);
+    // a secondary run (plain build) reports through its exit code and summary line only
+    let epath = if std::env::var("VERIF_NO_EVIDENCE").is_ok() { format!("{}/evidence/{}.plain-build.json", args.root, P::ID) } else { format!("{}/evidence/{}.json", args.root, P::ID) };
     let _ = std::fs::create_dir_all(format!("{}/evidence", args.root));
     if let Err(e) = std::fs::write(&epath, serde_json::to_vec_pretty(&evidence).unwrap()) {
         out(format!("cannot write evidence file {}: {}", epath, e));
